@@ -290,6 +290,12 @@ def catalogue():
         else:
             H = np.concatenate([H[:1], np.zeros((1, n), dtype=np.uint8), H[1:]], axis=0)
         add("ldpcr%d_%s" % (idx, kind), "ldpc", {"H": H.tolist(), "rank_deficient": True}, lambda H=H: E.LDPCCodeEncoder(check_matrix=T(H)))
+    # rows dependent over GF(2) but independent over the reals (three pairwise-overlapping checks summing to zero mod 2), followed by rows
+    # that are GF(2)-independent of them: a rank computed in floating point sees the wrong rows as redundant
+    for idx, H in enumerate(([[1, 1, 0, 1, 1, 0], [1, 0, 1, 1, 0, 1], [0, 1, 1, 0, 1, 1], [1, 1, 1, 1, 1, 1]],
+                             [[1, 1, 0, 0, 1, 0, 0, 1], [1, 0, 1, 0, 0, 1, 0, 0], [0, 1, 1, 0, 1, 1, 0, 1], [0, 0, 0, 1, 1, 0, 1, 0], [1, 1, 1, 1, 0, 0, 1, 1]])):
+        H = np.array(H, dtype=np.uint8)
+        add("ldpcg%d_gf2dep" % idx, "ldpc", {"H": H.tolist(), "rank_deficient": True}, lambda H=H: E.LDPCCodeEncoder(check_matrix=T(H)))
     return out
 
 
